@@ -112,15 +112,11 @@ _BITWISE = {'xormul', 'ormul', 'andmul', 'shl'}
 
 
 def _bitwise_on_float(tag):
-    """x |= .. / x << .. after x may have become a float: CPython raises TypeError only when the statement is reached with a
+    """A bitwise/shift template together with a float-producing template in one function (either order: safe inference types
+    an int-and-float variable as `double`, the registered known finding).  x |= .. / x << .. on a float: CPython raises TypeError only when the statement is reached with a
     float, Cython (having inferred `double`) rejects the function at compile time - by design, not generated."""
-    seen_float = False
-    for part in tag.split(';'):
-        if part in _BITWISE and seen_float:
-            return True
-        if part in _FLOATY:
-            seen_float = True
-    return False
+    parts = set(tag.split(';'))
+    return bool(parts & _BITWISE) and bool(parts & _FLOATY)
 
 
 def render(name, lines):
